@@ -166,6 +166,24 @@ fn main() {
             }
         }
     }
+    // a legal but unusual call sequence: the state is initialised for digest length A and finalised into a buffer of
+    // another length B (libsodium copies min(B, 64) bytes of the A-parameterised hash); buffer pre-filled, so that a
+    // backend that writes fewer bytes than the buffer holds shows stale content
+    if o.mine() {
+        let m = msg_of(5, 150);
+        for a in [16usize, 24, 32, 33, 48, 64] {
+            for b in [1usize, 16, 24, 32, 33, 48, 63, 64] {
+                for keyed in [false, true] {
+                    let r = crypto_generichash_init(if keyed { Some(&key32[..]) } else { None }, a).map_err(|e| e.to_string()).and_then(|mut st| {
+                        crypto_generichash_update(&mut st, &m);
+                        let mut out = vec![0xAAu8; b];
+                        crypto_generichash_final(st, &mut out).map(|_| out).map_err(|e| e.to_string())
+                    });
+                    o.emit_res(&format!("gh_init_final_len/{}/{}/{}", a, b, keyed as u8), r);
+                }
+            }
+        }
+    }
     for len in [127usize, 128, 129, 255, 256, 257, 384] {
         if !o.mine() {
             continue;
